@@ -1014,4 +1014,47 @@ example :
           && routePatternMatch (fun _ _ => true) {} (b "/shop") (patText p) == some true
       | none => false)) = true := by decide
 
+/-- `/:x/:x/…/:x` with `n` parameters -/
+def slashPat : Nat → Pat
+  | 0 => []
+  | n + 1 => .lit [SLASH] :: .named [120] false :: slashPat n
+
+def strictCS : Config := { caseSensitive := true, strictRouting := true, unescapePath := false }
+
+set_option maxRecDepth 1000000 in
+/-- the hypotheses of `fill_served_values` on `/:x/…/:x` filled with `a`, for 1 … 41 parameters -/
+theorem slashPat_hyps : ∀ n ∈ List.range 41,
+    WFPat (slashPat (n + 1)) = true ∧ Delimited (slashPat (n + 1)) = true ∧
+    CleanFill (foldPat strictCS (slashPat (n + 1))) (foldVals strictCS (List.replicate (n + 1) [97])) = true ∧
+    trailingOK strictCS (slashPat (n + 1)) (List.replicate (n + 1) [97]) = true ∧
+    nparams (slashPat (n + 1)) = n + 1 ∧
+    (List.replicate (n + 1) [97]).length = ((slashPat (n + 1)).filter (·.isParam)).length := by decide
+
+/-- **The completeness theorems carry no bound on the number of parameters.** `fill_served` quantifies
+    over every token list; this is the witness that the statement is not vacuous at and beyond fiber's
+    `maxParams` = 30: for every parameter count 1 … 41 the model registers the strict, case-sensitive
+    route `/:x/:x/…/:x`, dispatches the path `/a/a/…/a` to it with exactly the values written and
+    answers RoutePatternMatch with true. Real fiber serves such patterns up to 30 parameters and refuses
+    to register more (`router.go`); that bound is therefore held by the oracle and the driver
+    (`C03.maxParams`, every run draws patterns with 28, 29, 30 and 31 parameters), not by the model. -/
+theorem fill_served_many_params {chk : Constraint → Bytes → Bool} (n : Nat) (h : n < 41) :
+    nparams (slashPat (n + 1)) = n + 1 ∧
+    ∃ r, register strictCS false (patText (slashPat (n + 1))) = some r ∧
+      dispatch1 chk r (fill (slashPat (n + 1)) (List.replicate (n + 1) [97]))
+        (fill (slashPat (n + 1)) (List.replicate (n + 1) [97])) = some (List.replicate (n + 1) [97]) ∧
+      routePatternMatch chk strictCS (fill (slashPat (n + 1)) (List.replicate (n + 1) [97]))
+        (patText (slashPat (n + 1))) = some true := by
+  obtain ⟨hwf, hd, hcl, htr, hnp, hlen⟩ := slashPat_hyps n (List.mem_range.mpr h)
+  refine ⟨hnp, ?_⟩
+  have hc : configDependentPaths strictCS (fill (slashPat (n + 1)) (List.replicate (n + 1) [97])) =
+      (fill (slashPat (n + 1)) (List.replicate (n + 1) [97]), fill (slashPat (n + 1)) (List.replicate (n + 1) [97])) := by
+    simp [configDependentPaths, strictCS]
+  have := fill_served_values (chk := chk) strictCS (fill (slashPat (n + 1)) (List.replicate (n + 1) [97]))
+    hwf hd hlen hcl htr (by rw [hc])
+  rw [hc] at this
+  exact this
+
+/-- non-vacuity: the 30th and the 31st parameter count are among the instances -/
+example : nparams (slashPat 30) = 30 ∧ nparams (slashPat 31) = 31 ∧ maxParams = 30 := by decide
+
 end C03
